@@ -337,6 +337,103 @@ fn noassert<V: Full>(prop: &mut Property) {
     );
 }
 
+
+// ------------------------------------------------------------------ boundary shifts with content that imitates length fields
+
+/// Zero-filled message / footer / assertion whose lengths come from a grid around the byte boundaries of a 64-bit
+/// length field (0, 8, 128, 136, ...): all-zero content is also a run of zero length fields, the worst case for a
+/// pre-authentication encoding. For every sealed combination, every other combination with the same total number of
+/// bytes (bytes moved across the boundaries, nothing added or removed) is offered with the same tag / signature.
+fn length_imitating<V: Full>(prop: &mut Property, ctx: &Ctx) {
+    let name = V::NAME;
+    let grid: Vec<usize> = if ctx.thorough() { vec![0, 8, 120, 128, 136, 248, 256, 264] } else { vec![0, 8, 128, 136] };
+    let agrid: Vec<usize> = if V::assertions() { grid.clone() } else { vec![0] };
+    for local in [true, false] {
+        // local: the message is ciphertext, only footer and assertion are shifted; public: all three
+        let mgrid: Vec<usize> = if local { vec![1] } else { grid.clone() };
+        let mut combos: Vec<(usize, usize, usize)> = Vec::new();
+        for m in &mgrid {
+            for f in &grid {
+                for a in &agrid {
+                    combos.push((*m, *f, *a));
+                }
+            }
+        }
+        let combos = std::sync::Arc::new(combos);
+        let n = combos.len() as u64;
+        let pname = if local { "local" } else { "public" };
+        prop.subs.push(
+            Sub::new(
+                format!("{name}/{pname}/length-imitating-shifts"),
+                n,
+                format!("zero-filled (message, footer, assertion) with lengths from {grid:?} (local: message fixed; v1/v2: no assertion): each sealed combination x every other combination with the same total length, offered with the sealed tag / signature: rejected"),
+                move |idx, describe| {
+                    let (m, f, a) = combos[idx as usize];
+                    let mut o = Outcome::new();
+                    o.evals = 0;
+                    if describe {
+                        o.sample = Some(json!({"backend": name, "purpose": pname, "sealed_lengths": [m, f, a]}));
+                    }
+                    let ks = keys::keyset::<V>(false, 0);
+                    let (lkb, skb) = (&ks.locals[2].bytes, &ks.secrets[0].bytes);
+                    let pkb = keys::key_bytes(&keys::secret::<V>(skb).public_key());
+                    let z = |n: usize| vec![0u8; n];
+                    let sealed = subject(|| {
+                        if local {
+                            ops::enc::<V>(&keys::local::<V>(lkb), &z(m), Some(&z(f)), &z(a), &Nonce::Fixed(fixed_nonce::<V>()))
+                        } else {
+                            ops::sign::<V>(&keys::secret::<V>(skb), &z(m), Some(&z(f)), &z(a), &Nonce::Lib)
+                        }
+                    });
+                    let token = match sealed {
+                        Ok(Ok(t)) => t,
+                        other => {
+                            o.violate(format!("{name}/{pname}/length-imitating/seal"), format!("cannot seal zero-filled pieces of lengths {:?}: {:?}", (m, f, a), other.map(|r| r.is_ok())), json!({}));
+                            return o;
+                        }
+                    };
+                    let key: &[u8] = if local { lkb } else { &pkb };
+                    // the sealed combination itself is accepted
+                    o.evals += 1;
+                    match try_unseal::<V>(local, &token, key, &z(a)) {
+                        Ok(Ok((c, ft))) if c.len() == m && ft.len() == f => o.class("sealed-combination-accepted"),
+                        other => o.violate(format!("{name}/{pname}/length-imitating/own"), format!("the sealed combination {:?} is not accepted: {:?}", (m, f, a), other.map(|r| r.map(|_| ()))), json!({"token": token})),
+                    }
+                    let Some((h, body, _)) = ops::split_token(&token) else { return o };
+                    let sig = if local { Vec::new() } else { body[body.len() - V::sig_len()..].to_vec() };
+                    for (m2, f2, a2) in combos.iter().copied() {
+                        if (m2, f2, a2) == (m, f, a) || m2 + f2 + a2 != m + f + a {
+                            continue;
+                        }
+                        o.evals += 1;
+                        let body2 = if local {
+                            body.clone()
+                        } else {
+                            let mut b = z(m2);
+                            b.extend_from_slice(&sig);
+                            b
+                        };
+                        let zf = z(f2);
+                        let t2 = ops::join_token(&h, &body2, if f2 == 0 { None } else { Some(&zf[..]) });
+                        match try_unseal::<V>(local, &t2, key, &z(a2)) {
+                            Ok(Err(_)) => o.class("shifted-rejected"),
+                            Ok(Ok(_)) => o.violate(
+                                format!("{name}/{pname}/length-imitating/accepted"),
+                                format!("a token sealed over zero-filled (message, footer, assertion) of lengths {:?} is accepted as lengths {:?}: bytes moved across the boundaries without invalidating the tag", (m, f, a), (m2, f2, a2)),
+                                json!({"sealed": token, "offered": t2, "assertion_len": a2}),
+                            ),
+                            Err(p) => o.violate(format!("{name}/{pname}/length-imitating/panic"), p, json!({"offered": t2})),
+                        }
+                    }
+                    o.nontrivial = o.evals;
+                    o
+                },
+            )
+            .witness(if V::assertions() || !local { &["sealed-combination-accepted", "shifted-rejected"] } else { &["sealed-combination-accepted"] }),
+        );
+    }
+}
+
 // ------------------------------------------------------------------ typed footers: equivalent re-encodings are still "changed"
 
 #[derive(serde::Serialize, serde::Deserialize, Clone, PartialEq, Debug)]
@@ -466,6 +563,12 @@ pub fn build(ctx: &Ctx) -> Property {
     typed_footer::<backends::V3L>(&mut p);
     typed_footer::<backends::V4>(&mut p);
     typed_footer::<backends::V4S>(&mut p);
+    length_imitating::<backends::V1>(&mut p, ctx);
+    length_imitating::<backends::V2>(&mut p, ctx);
+    length_imitating::<backends::V3>(&mut p, ctx);
+    length_imitating::<backends::V3L>(&mut p, ctx);
+    length_imitating::<backends::V4>(&mut p, ctx);
+    length_imitating::<backends::V4S>(&mut p, ctx);
     noassert::<backends::V1>(&mut p);
     noassert::<backends::V2>(&mut p);
     p.assume("ECDSA (r, n-s) malleability is not a single-bit change and is outside the fault set, as is any multi-bit forgery: the fault classes are exactly those the statement lists");
